@@ -309,7 +309,10 @@ func doFormat(src []byte, o Opt) (r fmtResult) {
 
 // listExcluded: trivia positions of element lists where the UNCHANGED formatter already misbehaves (determined
 // with C39_LIST_ALL=1; reproducers in corpus/C39); key = <list kind>:<last|mid>:<feature> or <list kind>:*
-var listExcluded = map[string]bool{}
+var listExcluded = map[string]bool{
+	"array:*": true, "dictionary:*": true, "type-args:*": true,
+	"parameters:last:blank": true,
+}
 
 // Issue is one property failure found on a case.
 type Issue struct{ Key, What string }
@@ -988,7 +991,11 @@ func genListProgram(r *lib.Rng, n *int, excl func(kind, feature string) bool) (s
 	}
 	var body []string
 	var decls []string
-	for k := 0; k < 1+r.Intn(3); k++ {
+	nl := 1 + r.Intn(3)
+	if os.Getenv("C39_LIST_ONE") != "" {
+		nl = 1
+	}
+	for k := 0; k < nl; k++ {
 		lk := kindsAll[r.Intn(len(kindsAll)+1)%len(kindsAll)]
 		isParams := r.Chance(1, 5)
 		if isParams {
@@ -1327,6 +1334,10 @@ func main() {
 			issues[k].What += " [placements: " + strings.Join(sigs, " ") + "]"
 		}
 		report(src, o, cls, out, issues, "lists")
+		if dump != nil {
+			b, _ := json.Marshal(map[string]any{"listcase": true, "class": cls, "sigs": sigs, "nissues": len(issues), "source": src})
+			dump.Write(append(b, '\n'))
+		}
 		if i < 1 {
 			sum.Sample(map[string]any{"stream": "lists", "source": src, "options": o, "class": cls, "formatted": string(out)})
 		}
